@@ -37,6 +37,7 @@ extern "C" {
     fn sqlite3_progress_handler(db: *mut Sqlite3, n: c_int, cb: Option<extern "C" fn(*mut c_void) -> c_int>, arg: *mut c_void);
     fn sqlite3_changes(db: *mut Sqlite3) -> c_int;
     fn sqlite3_libversion() -> *const c_char;
+    fn sqlite3_config(op: c_int, ...) -> c_int;
 }
 
 const SQLITE_OK: c_int = 0;
@@ -103,8 +104,15 @@ pub fn version() -> String {
     unsafe { CStr::from_ptr(sqlite3_libversion()).to_string_lossy().to_string() }
 }
 
+static CONFIG_ONCE: std::sync::Once = std::sync::Once::new();
+
 impl Db {
     pub fn memory() -> Db {
+        // SQLite's allocation statistics serialise every allocation of all threads on one mutex:
+        // switch them off (SQLITE_CONFIG_MEMSTATUS = 9) before the first connection. No effect on semantics.
+        CONFIG_ONCE.call_once(|| unsafe {
+            let _ = sqlite3_config(9, 0 as c_int);
+        });
         let mut db: *mut Sqlite3 = std::ptr::null_mut();
         let name = CString::new(":memory:").unwrap();
         // READWRITE | CREATE | NOMUTEX: one connection per case, used by one thread
